@@ -655,11 +655,12 @@ def spec_http_readers(ck):
         fn = ck.find(lambda r=recv: ck.db.method(r, 'read_from'), recv + '::read_from')
         if fn is None:
             continue
-        ex = ck.engine(loop_bound=5, call_depth=8)
+        quick = ck.tier == 'quick'
+        ex = ck.engine(loop_bound=4 if quick else 5, call_depth=8)
         ex.benign_havoc = harness.IRRELEVANT
         st = State()
         inp = Bytes.symbolic('peer_bytes', 'in')
-        ex.assume(st, z3.ULE(inp.len, BV(24, 64)))
+        ex.assume(st, z3.ULE(inp.len, BV(20 if quick else 24, 64)))
         scell = new_stream(ex, st, 'peer', inp)
         ex.inputs = {'peer_bytes': inp}
         outs = run_async(ex, st, fn, [Ref(scell, ())])
@@ -681,7 +682,7 @@ def spec_http_readers(ck):
                 f.target = 'http target'
         ck.absorb(ex, 'TargetAddress::from_str', outs)
     ck.plans.append(_http_replay_plan)
-    ck.bounds['http-readers'] = 'request / response head of <= 24 bytes in any segmentation, <= 5 header lines; CONNECT target string <= 24 bytes'
+    ck.bounds['http-readers'] = 'request / response head of <= %d bytes in any segmentation, <= %d lines; CONNECT target string <= 24 bytes' % ((20, 4) if ck.tier == 'quick' else (24, 5))
 
 
 def spec_http_head_truncation(ck):
